@@ -528,6 +528,10 @@ class RunBundler:
         # This is needed to 'cancel' an open bundling (e.g. create) if
         # the pause happens after a 'checkpoint', after a 'create', but
         # before the paired 'save'.
+        self.cancel_bundle()
+
+    def cancel_bundle(self):
+        """Forget the event bundle that is open, if any (a 'drop' meant for it is then a no-op)."""
         if self.bundling:
             self._bundle_cancelled_by_rewind = True
         self.bundling = False
